@@ -99,9 +99,17 @@ func genC07(t *rapid.T) c07Case {
 				under = append(under, k)
 			}
 		}
-		if len(under) > 0 && rapid.IntRange(0, 3).Draw(t, "continue_pending") != 0 {
-			s.Sess = rapid.SampledFrom(under).Draw(t, "pending_sess")
-			kind = "authen-next"
+		if len(under) > 0 {
+			switch rapid.IntRange(0, 7).Draw(t, "continue_pending") {
+			case 0, 1:
+			case 2:
+				// a sequence fault on a session that is in the middle of an exchange
+				s.Sess = rapid.SampledFrom(under).Draw(t, "pending_sess")
+				kind = "seq"
+			default:
+				s.Sess = rapid.SampledFrom(under).Draw(t, "pending_sess")
+				kind = "authen-next"
+			}
 		}
 		switch kind {
 		case "authen":
